@@ -452,7 +452,13 @@ template <class T, size_t KLEN> struct CppObj : Obj {
     }
     void erase(const std::string &how) {
         if (!p) throw std::runtime_error("no object");
-        if (how == "dtor") { p->~T(); p = 0; }
+        if (how == "dtor") {
+            // alternately as the concrete type and through the abstract interface type (what delete / unique_ptr<ascon::aead> do):
+            // the wiping lives in the derived destructors and must be reached by virtual dispatch
+            static unsigned turn = 0;
+            if (turn++ & 1) { ascon::aead *base = p; base->~aead(); } else p->~T();
+            p = 0;
+        }
         else if (how == "clear") p->clear();
         else throw std::runtime_error("how");
         barrier(buf);
